@@ -197,14 +197,26 @@ def run_unit(unit_dir, rlimit=100, probes=True, keep=True):
            'cmd': '', 'solver_ms': 0}
     t00 = time.time()
     path = os.path.join(out_dir, unit + '.rs')
-    try:
-        asm, cfg = extract.assemble(unit_dir, path)
-    except extract.LostAnchor as e:
-        res.update(status='undecided', reason='lost-anchor: %s' % e)
+    soft = set()
+    asm = None
+    for _attempt in range(6):
+        try:
+            asm, cfg = extract.assemble(unit_dir, path, soft=soft)
+            break
+        except extract.LostAnchor as e:
+            if e.selector and (e.file, e.selector) not in soft and re.search(r'\bfn \w+$', e.selector):
+                soft.add((e.file, e.selector))
+                res.setdefault('lost_anchor_msgs', []).append(str(e))
+                continue
+            res.update(status='undecided', reason='lost-anchor: %s' % e)
+            return res
+        except (extract.Unsupported, ValueError) as e:
+            res.update(status='undecided', reason='unsupported: %s' % e)
+            return res
+    if asm is None:
+        res.update(status='undecided', reason='lost-anchor: too many functions with lost anchors')
         return res
-    except (extract.Unsupported, ValueError) as e:
-        res.update(status='undecided', reason='unsupported: %s' % e)
-        return res
+    res['hints_lost'] = sorted(fn_display({'selector': sel}) for (_f, sel) in soft)
     res['items'] = asm.items
     res['dropped'] = ['%s %s: %s x%d' % d for d in asm.dropped]
     res['erasure_ok'] = asm.erasure_ok
@@ -286,6 +298,7 @@ def run_unit(unit_dir, rlimit=100, probes=True, keep=True):
             fname = fn_display(item) if item else 'spec-or-prelude'
             props = tags or (item['props'] if item else [])
             locs = [w['at'] for w in where if w['primary']] or [w['at'] for w in where]
+            rec['hints_lost'] = bool(item and (item['file'], item['selector']) in soft)
             rec.update(function=fname, props=props,
                        obligation=('%s/%s/%s#%s' % (unit, fname, kind, label)) if label else
                                   ('%s/%s/%s@%s' % (unit, fname, kind, locs[0] if locs else '?')),
@@ -319,7 +332,7 @@ def run_unit(unit_dir, rlimit=100, probes=True, keep=True):
     # ---- vacuity probes
     if probes and res['status'] in ('ok', 'failed'):
         ppath = os.path.join(out_dir, unit + '_probe.rs')
-        pasm, _ = extract.assemble(unit_dir, ppath, probe=True)
+        pasm, _ = extract.assemble(unit_dir, ppath, probe=True, soft=soft)
         pl = pasm.linemap()
         pjs, pdiags, pwall, pcmd, perr = run_verus(ppath, rlimit)
         res['wall_s'] += pwall
@@ -339,7 +352,7 @@ def run_unit(unit_dir, rlimit=100, probes=True, keep=True):
         # loop probes shadowed by the body probe of the same function: second pass with loop probes only
         if any(not e.endswith('#0') for e in expected - rejected):
             lpath = os.path.join(out_dir, unit + '_probe_loops.rs')
-            lasm, _ = extract.assemble(unit_dir, lpath, probe='loops')
+            lasm, _ = extract.assemble(unit_dir, lpath, probe='loops', soft=soft)
             ll = lasm.linemap()
             ljs, ldiags, lwall, lcmd, lerr = run_verus(lpath, rlimit)
             res['wall_s'] += lwall
